@@ -55,8 +55,9 @@ def run(prog: Program, rep: Report, tier: str) -> None:
     en = days.enum
     where = f"{loc(days, days.node)} Days"
     for a in ("bit_rep", "hex_rep", "weekday", "value"):
-        if a not in en.attrs or (isinstance(en.attrs[a], tuple) and en.attrs[a][0] == "opaque"):
-            raise AnalysisError(f"Days.{a} is not a plain member attribute any more")
+        if a not in en.attrs:
+            raise AnalysisError(f"Days.{a} is no longer an attribute of the members")
+        en.attr(next(iter(en.members)), a)      # (raises when the attribute cannot be established, by slot or by interpretation)
     rep.check(list(en.members) == DAY_NAMES, "R12.1", "members", where, f"Days members are {list(en.members)}", key="R12.1|members")
     for i, m in enumerate(en.members):
         b, h, w, v = en.attr(m, "bit_rep"), en.attr(m, "hex_rep"), en.attr(m, "weekday"), en.attr(m, "value")
